@@ -118,6 +118,23 @@ def rng(lo, k, hi):
     return And(zint(lo) <= k, k < zint(hi)) if not (isinstance(lo, int) and isinstance(hi, int) and isinstance(k, int)) else (lo <= k < hi)
 
 
+def _mentions_const(t, k):
+    seen, stack = set(), [t]
+    while stack:
+        x = stack.pop()
+        i = x.get_id()
+        if i in seen:
+            continue
+        seen.add(i)
+        if x.eq(k):
+            return True
+        if z3.is_quantifier(x):
+            stack.append(x.body())
+        else:
+            stack.extend(x.children())
+    return False
+
+
 class Seq:
     """finite sequence of integer-coded items: length ``n`` and ``get(i)``"""
 
@@ -169,6 +186,8 @@ class Ctx:
         self.trace = []           # human-readable path signature
         self.notes = []
         self.epoch = 0            # allocation clock (C20)
+        self.infold = []          # forks taken inside summarised loops: [decision prefix, arm, fold depth]
+        self.fork_outcomes = []   # (decision prefix, arm, 'normal' | 'raise')
         self.axioms_added = set()
 
     # ---- naming
@@ -253,6 +272,10 @@ class Ctx:
         if r != z3.sat and self.check_sliced(cond) == z3.unsat:
             self.assume(Not(cond))
             return False
+        if self.folds and any(_mentions_const(zbool(cond), f[0]) for f in self.folds):
+            # a fork on an iteration-dependent test inside a summarised loop: sound only if at most one arm completes the
+            # iteration normally (the other raises).  Recorded; verify.explore rejects loops where both arms continue.
+            self.infold.append([tuple(self.decisions[:self.dpos]), None, len(self.folds)])
         if self.dpos < len(self.decisions):
             choice = self.decisions[self.dpos]
         else:
@@ -260,6 +283,8 @@ class Ctx:
             self.alts.append(self.decisions[:self.dpos] + [False])
             self.decisions.append(True)
         self.dpos += 1
+        if self.infold and self.infold[-1][1] is None:
+            self.infold[-1][1] = choice
         self.assume(cond if choice else Not(cond))
         self.trace.append(f"{label or 'branch'}={'T' if choice else 'F'}")
         return choice
@@ -286,8 +311,19 @@ class Ctx:
         self.assume(rng(lo, k, hi))
         return k, mark
 
+    def _close_forks(self, outcome):
+        depth = len(self.folds)
+        keep = []
+        for fk in self.infold:
+            if fk[2] >= depth and fk[1] is not None:
+                self.fork_outcomes.append((fk[0], fk[1], outcome))
+            else:
+                keep.append(fk)
+        self.infold = keep
+
     def exit_fold_raising(self, mark):
         """the body raised at the generic iteration k: k stays a free constant ('some iteration'), local facts are kept"""
+        self._close_forks("raise")
         k, lo, hi = self.folds.pop()
         local = self.pc[mark:]
         del self.pc[mark:]
@@ -297,6 +333,7 @@ class Ctx:
         return k
 
     def exit_fold(self, mark):
+        self._close_forks("normal")
         k, lo, hi = self.folds.pop()
         local = self.pc[mark:]
         del self.pc[mark:]
